@@ -147,7 +147,10 @@ func (m *C03) AfterTx(e *eng.Engine, t *eng.TxRec) {
 		}
 		if c.Addr == FeePool() {
 			if out := poolOut[c.Denom]; out != nil {
-				if new(big.Int).Sub(c.Before, c.After).Cmp(out) == 0 {
+				// exactly the coins sent — or less, when another message of the same transaction paid
+				// fees into the pool; never more
+				dec := new(big.Int).Sub(c.Before, c.After)
+				if dec.Cmp(out) == 0 || (len(t.Msgs) > 1 && dec.Cmp(out) < 0) {
 					continue
 				}
 				e.Violate("C03", "fee-pool-delta", fmt.Sprintf("%s: fee pool %s went %s -> %s but the authority sent %s", where, c.Denom, c.Before, c.After, out))
